@@ -232,6 +232,8 @@ func scenarios(thorough bool) []scenario {
 		{"cutoff-boundary", [][]op{{both(5, 50, 10)}, {both(7, 70, 11)}, {rd(20, 1, 1), rd(21, 1, 1)}}},
 		{"equal-timestamps", [][]op{{both(1, 10, 10)}, {both(2, 20, 10)}, {rd(12, 1, 1)}}},
 		{"reader-between-markets", [][]op{{both(100, 1000, 10), both(200, 2000, 20)}, {rd(25, 1, 1), rd(25, 1, 1)}}},
+		// a read that finds an entry stale must not forget it: a late read, then an older update, then an earlier read
+		{"late-read-then-older-update", [][]op{{both(100, 1000, 20), rd(40, 1, 1), both(50, 500, 15), rd(25, 1, 1)}, {rd(26, 1, 1)}}},
 	}
 	if thorough {
 		sc = append(sc,
